@@ -674,6 +674,7 @@ func runC13(r *core.Run) (bool, string) {
 	r.Assume("MemFs readers do not Close (MemFs descriptors are inode numbers shared between openers — subject of C12); a DirFs List that misses the destination is counted inconclusive because List is documented as non-atomic")
 	r.Assume("crash enumeration starts from trees without leftover staging files; leftovers are exercised by the recovery calls that follow every crash/fault point")
 	missing := c13CrashAndFaults(r)
+	c13PartialWrite(r)
 	c13Concurrency(r)
 	notLanded := r.GetCount("fault_points_not_landed")
 	r.Set("exhaustive", notLanded == 0 && r.GetCount("crash_points_landed") > 0)
@@ -693,4 +694,63 @@ func runC13(r *core.Run) (bool, string) {
 		}
 	}
 	return true, ""
+}
+
+// c13PartialWrite: a write that the kernel cuts short (file-size limit reached mid-write, as
+// with a full disk or a quota): the call must not publish a truncated file. Either it fails and
+// d/f keeps its previous state, or it returns normally and d/f holds exactly data.
+func c13PartialWrite(r *core.Run) {
+	bin, err := r.BuildSelf()
+	if err != nil {
+		r.Inconclusive("child-build-failed")
+		return
+	}
+	type sc struct {
+		Size, Limit int
+		Dest        string
+	}
+	var scs []sc
+	for _, size := range []int{12288, 70000, 1 << 20} {
+		for _, lim := range []int{1, 4096, 8192, size - 1, size / 2} {
+			for _, dest := range []string{"absent", "shorter"} {
+				scs = append(scs, sc{size, lim, dest})
+			}
+		}
+	}
+	core.Parallel(len(scs), 8, func(i int) {
+		s := scs[i]
+		root := filepath.Join(r.Scratch, fmt.Sprintf("c13-partial-%d", i))
+		setup := c13setup{Size: s.Size, Dest: s.Dest}
+		if msg := c13Prepare(root, setup); msg != "" {
+			r.Inconclusive("partial-write-setup-failed")
+			return
+		}
+		before := treeState(root)
+		res := core.Exec(root, nil, 2*time.Minute, "", bin, "child", "c13-child", "aclimit", root, "d", "f", "9", fmt.Sprint(s.Size), fmt.Sprint(s.Limit))
+		after := treeState(root)
+		r.Eval(1)
+		reported := "no END marker"
+		for _, l := range strings.Split(res.Stderr, "\n") {
+			if strings.HasPrefix(l, "END 0 ") {
+				reported = strings.TrimPrefix(l, "END 0 ")
+			}
+		}
+		r.Count("partial_write_runs", 1)
+		r.Distinct(fmt.Sprintf("partial/%d/%d/%s", s.Size, s.Limit, s.Dest))
+		data := pay1(9, s.Size)
+		got, present := after["d/f"]
+		old, hadOld := before["d/f"]
+		detail := map[string]interface{}{"data_len": s.Size, "file_size_limit": s.Limit, "destination_before": describe(old, hadOld), "destination_after": describe(got, present), "child_reported": reported}
+		isNew := present && bytes.Equal(got, data)
+		isOld := present == hadOld && (!present || bytes.Equal(got, old))
+		switch {
+		case strings.HasPrefix(reported, "ok") && !isNew:
+			r.Violate("partial-write-published-truncated-data", fmt.Sprintf("with the file size limited to %d bytes AtomicCreate(d,f,%d bytes) returned normally but d/f is %s", s.Limit, s.Size, describe(got, present)), detail)
+		case !isNew && !isOld:
+			r.Violate("partial-write-dest-neither-old-nor-new", fmt.Sprintf("with the file size limited to %d bytes AtomicCreate(d,f,%d bytes) reported %q and d/f is %s (before: %s)", s.Limit, s.Size, reported, describe(got, present), describe(old, hadOld)), detail)
+		default:
+			r.Count("partial_write_old_or_new", 1)
+			r.Sample(12, detail)
+		}
+	})
 }
